@@ -12,8 +12,9 @@
 //     <= 4, on the real requestedTracks;
 //  2. corpus: the schedules that matter (close for a never-offered stream,
 //     explicitly empty request entry, replace racing a request inside the push
-//     delay, stale push after a group switch, teardown by close / unpresent /
-//     kick / leave / disconnect, video-low, requestStream, abort, answer) with
+//     delay, a member joining inside the push delay (F26), stale push after a
+//     group switch, teardown by close / unpresent / kick / leave / disconnect,
+//     video-low, requestStream, abort, answer) with
 //     REAL publishers: an in-process pion peer connection sends RTP so that
 //     OnTrack fires and the streams have tracks;
 //  3. the id-collision histories (the hypothesis of the theorems fails);
@@ -38,6 +39,7 @@ func runSubscribe(t *tr.Trace, r *tr.Rand, n int) {
 	sigdrv.Quiet()
 	layer1(t)
 	corpus(t, r)
+	lateJoiner(t, r)
 	collisions(t, r)
 	for i := 0; i < n; i++ {
 		seed := r.U64()
@@ -351,6 +353,49 @@ func corpus(t *tr.Trace, r *tr.Rand) {
 		h.offer(p, 0, 0, 0, "g")
 		h.quiesce()
 	})
+}
+
+// ---------------------------------------------------------------- the late joiner (F26, fixed)
+
+// Regression histories of finding F26: pushConn used to start one goroutine
+// per call, each with ITS OWN snapshot of the group's clients taken when the
+// push was scheduled, and the first one to wake up pushed for all of them.  A
+// client that joined and requested inside the 200 ms push delay of a new
+// stream was pushed the stream by its own request (no track yet); when OnTrack
+// fired, the goroutine of the ORIGINAL pushConn woke first, pushed the tracks
+// to its stale list (without the joiner) and set `pushed`; the goroutine
+// started by OnTrack did nothing: the joiner requested video, the stream had
+// video, and it was never offered.  The clients are now read from the group
+// when the goroutine wakes up.  Monitor C07.late-joiner.
+func lateJoiner(t *tr.Trace, r *tr.Rand) {
+	for _, real := range []bool{false, true} {
+		name := "corpus-late-joiner"
+		if real {
+			name = "corpus-late-joiner-real-timers" // the REAL 200 ms goroutines, no hook
+		}
+		corpusRun(t, r, name, 3, func(h *hist) {
+			p, m, n := h.cs[0], h.cs[1], h.cs[2]
+			h.join(p, 1, 1)
+			h.join(n, 1, 8)
+			h.reqDefault(n, av)
+			h.quiesce()
+			h.forceWait = real
+			h.establishWith(p, 1, 0, 0, av, func() {
+				h.join(m, 1, 4)
+				h.reqDefault(m, av)
+				h.pump(p)
+				h.pump(m)
+			})
+			h.forceWait = false
+			h.quiesce()
+			h.check("late-joiner")
+			if !h.tainted && (len(m.c.DownIds()) != 1 || len(n.c.DownIds()) != 1) {
+				h.fail("late-joiner", fmt.Sprintf("late-joiner: client 1 joined and requested audio+video inside the push delay of stream 1; "+
+					"at quiescence the stream has tracks %v, the early member holds %v, the late joiner holds %v",
+					h.ups[0].up.Kinds(), n.c.DownIds(), m.c.DownIds()))
+			}
+		})
+	}
 }
 
 // ---------------------------------------------------------------- id collisions
